@@ -200,6 +200,12 @@ def seqnum_rules(ctx, en, members):
             fs = [_field_shift(a) for a in adds]
             if all(f is not None for f in fs) and len(fs) >= 3:
                 polys.append(dict(fs))
+        wit0 = _refute_monotone(val, order)
+        if wit0 is not None:
+            R.fail("C20-D2 sequence polynomial", f"{key}: not strictly increasing", mod=fi.module, node=stores[key][0].node, function=fq,
+                   expected="(major<<24)+(minor<<16)+(patch<<8)[+tweak], strictly increasing in (major, minor, patch, tweak)",
+                   found=f"{wit0[0]} -> {wit0[2]} but {wit0[1]} -> {wit0[3]}", key_extra=key)
+            continue
         if not polys:
             # not the recognised normal form: look for a concrete counterexample by evaluating the stored term on ordered tuples
             # (sound as a refutation; without one the analysis cannot stand behind a verdict)
@@ -223,7 +229,7 @@ def seqnum_rules(ctx, en, members):
                     found=f"{poly}", key_extra=key + str(len(poly)))
 
     # ---- D3: default version string is in the encoder's language
-    R.rule("C20-D3 default version labels", 3, "labels the glue can emit are labels the encoder accepts")
+    R.rule("C20-D3 default version labels", 5, "labels the glue can emit are labels the encoder accepts")
     pats = {s.args[0].v for o in outs for e in all_effects(o.effects) for s in subterms(e)
             if isinstance(s, App) and s.op == "call:re.match" and isinstance(s.args[0], Const)}
     if not pats:
@@ -234,6 +240,36 @@ def seqnum_rules(ctx, en, members):
             raise AnalysisError(f"{fq}: cannot enumerate the label alternation of {pat!r}")
         R.check("C20-D3 default version labels", set(labels) <= set(members), f"labels of {pat!r}", mod=fi.module, node=fi.node,
                 function=fq, expected=f"subset of {sorted(members)}", found=f"{sorted(labels)}")
+    # every default version string the glue can produce is one the encoder accepts: the produced string depends on the extra-version
+    # text only through the pattern match, so one representative per class of that text is a complete table (evaluated on the term)
+    from sa.teval import Raised, Unknown, teval
+    ver_t = App("idx", (Sym("param:cfg"), Const("VERSION")))
+    samples = ["rc", "rc1", "rc.1", "rc.", "beta", "alpha.3", "alpha12", "", "foo", "rc-1", "RC1"]
+
+    def encoder_accepts(text):
+        return all(part.isnumeric() or part in members for part in text.replace("-", ".").split("."))
+    for key, fields, extra in (("DEFAULT_VERSION", ("VERSION_MAJOR", "VERSION_MINOR", "PATCHLEVEL"), "EXTRAVERSION"),
+                               ("SCFW_VERSION", ("SYSCTRL_VERSION_MAJOR", "SYSCTRL_VERSION_MINOR", "SYSCTRL_VERSION_PATCH"), "SYSCTRL_VERSION_EXTRA")):
+        if key not in stores:
+            continue
+        val_ = stores[key][0].args[2]
+        bad_s, unknown = [], 0
+        for sx in samples + [None]:
+            d_ = {f_: str(i_ + 4) for i_, f_ in enumerate(fields)}
+            if sx is not None:
+                d_[extra] = sx
+            try:
+                got = teval(val_, {ver_t: d_})
+            except (Unknown, Raised):
+                unknown += 1
+                continue
+            if not (isinstance(got, str) and encoder_accepts(got)):
+                bad_s.append((sx, got))
+        if unknown > len(samples) // 2:
+            raise AnalysisError(f"{fq}: {key} not evaluable for the extra-version samples")
+        R.check("C20-D3 default version labels", not bad_s, f"{key}: every produced string is in the encoder's language", mod=fi.module,
+                node=stores[key][0].node, function=fq, expected="N.N.N[-(alpha|beta|rc)[.N]]", found=f"{extra}={bad_s[0][0]!r} -> {bad_s[0][1]!r}" if bad_s else "",
+                key_extra=key + "table")
     # fallback literal(s) appended after '-'
     for key in ("DEFAULT_VERSION", "SCFW_VERSION"):
         if key not in stores:
